@@ -422,6 +422,23 @@ def component(draw, env, depth, kinds):
         return ["->", l, action(draw, env, max(0, depth - 1))]
     if k == "se":
         return side_effect(draw, env, max(0, depth - 1))
+    if k == "print":
+        chunks = [["text", draw(st.sampled_from(["row ", "at ", "x: ", "line="]))]]
+        for _ in range(draw(st.integers(0, 3))):
+            r = draw(st.sampled_from(["ln", "cs", "var", "hdr", "txt"]))
+            if r == "ln":
+                chunks.append(["ref", "csvpath", "line_number"])
+            elif r == "cs":
+                chunks.append(["ref", "csvpath", "count_scans"])
+            elif r == "var" and [v for v, t in env.vars.items() if t in ("N", "S", "I")]:
+                chunks.append(["ref", "var", draw(st.sampled_from(sorted(v for v, t in env.vars.items() if t in ("N", "S", "I"))))])
+            elif r == "hdr":
+                chunks.append(["ref", "hname", "id"])
+            chunks.append(["text", draw(st.sampled_from([" | ", "; ", " - ", ", and "]))])
+        q = draw(st.sampled_from([[], [], ["onmatch"], ["once"]]))
+        if not getattr(env, "and_mode", True):
+            q = []
+        return ["f", "print", q, [["pt", chunks]]]
     if k == "every":
         nm = env.fresh("ev")
         env.ignore_vars.append(nm)
@@ -447,6 +464,7 @@ def programs(draw, table, kinds=("b", "b", "b", "assign", "assign", "when", "se"
     kinds = list(kinds)
     if mode == "OR":
         kinds = [k for k in kinds if k in ("b", "assign", "when", "every", "first")] or ["b"]
+        # (bare side effects and print are AND-mode only: their OR-mode vote is not documented)
     comps = [component(draw, env, draw(st.integers(0, depth)), kinds) for _ in range(n)]
     return {"comps": comps, "mode": mode, "ignore_vars": env.ignore_vars}
 
